@@ -517,8 +517,11 @@ def write_evidence(prop, a, api, s, t0, seed):
           "assumptions": ["integers unbounded; str = sequence of code points; no monkey-patching; aliasing of mutable locals absent",
                           "every assumed/external contract listed in coverage.assumed_contracts / trusted_base"],
           "wall_s": round(time.time() - t0, 2), "violations": len(s["violations"])}
-    os.makedirs(os.path.join(VERIF, "evidence"), exist_ok=True)
-    json.dump(ev, open(os.path.join(VERIF, "evidence", f"{prop}.json"), "w"), indent=1, default=str)
+    # evidence/<id>.json describes runs against /repo itself; runs against a scratch copy (VERIF_REPO) go elsewhere
+    evdir = os.path.join(VERIF, "evidence") if os.path.realpath(repo_root()) == os.path.realpath("/repo") \
+        else os.path.join(VERIF, "evidence", "_scratch")
+    os.makedirs(evdir, exist_ok=True)
+    json.dump(ev, open(os.path.join(evdir, f"{prop}.json"), "w"), indent=1, default=str)
 
 
 def do_replay(path):
